@@ -12,7 +12,23 @@ def run(ctx):
                 "in the other direction; the recorded endpoint traces are validated by TLC against Tunnel.tla (proxy steps "
                 "inferred). Non-trivial = schedule with at least one write.")
     ctx.mc("Tunnel.tla", "MC_Tunnel.cfg")
+    ok, _, _, _ = ctx.mc("Tunnel.tla", "MC_Tunnel_ForceWhileFlowing.cfg", expect_ok=False)
+    if ok:
+        raise vlib.Infra("Tunnel mutant ForceWhileFlowing not detected by the model")
     binp = ctx.build()
+    # Tunnel.tla PForce: one direction has finished, the other goes on flowing for longer than the period after which a
+    # tunnel is closed by force (set to 400 ms)
+    out = ctx.run_vh(binp, ["c03-grace"], timeout=600)
+    out, crashed = ctx.nocrash(out, "C03:crash")
+    if not crashed and len(out) != 3:
+        raise vlib.Infra("c03-grace: %d results" % len(out))
+    for r in out:
+        ctx.evaluations += 1
+        ctx.nontrivial.add("grace:" + r["kind"])
+        if not r["ok"]:
+            ctx.violation("C03:cut-while-flowing:" + r["kind"], r)
+        else:
+            ctx.traces_ok += 1
     recs, g, d, _ = ctx.gen("TunnelSched.tla", "GEN_TunnelSched_%s.cfg" % ("Q" if q else "T"))
     trace = os.path.join(ctx.work, "tunnel.ndjson")
     args = ["c03", "--arg", "trace=" + trace]
